@@ -37,6 +37,7 @@ type c01Mon struct {
 	ctx        *vCtx
 	mayCancel  bool
 	cancelled  bool
+	errForms   bool // failing attempts return errors in several forms (plain / context-wrapping / typed nil)
 }
 
 // maybeCancel: with mayCancel set, the context may be cancelled from inside any callback
@@ -69,6 +70,9 @@ func (m *c01Mon) exec(p any) (any, error) {
 	if vNondet[bool]("execFail") {
 		m.state = c01ExecFailed
 		m.lastErr = vNewErr()
+		if m.errForms {
+			m.lastErr = vFailure("exec")
+		}
 		if vNondet[bool]("execFailWithValue") {
 			return &vTok{id: 666}, m.lastErr // a failed attempt's value is not a result
 		}
@@ -246,6 +250,8 @@ func (n *c01PlainRetryNode) GetWait() time.Duration { return 0 }
 func VH_C01_plainRetry() {
 	N := c01Budget()
 	m := c01NewMon(N)
+	m.errForms = true
+	m.prepTok = &vTok{id: 4}
 	act, err := Run(m.ctx, &c01PlainRetryNode{m: m, n: N}, m.store)
 	m.finish(act, err)
 }
